@@ -174,7 +174,8 @@ class Caller(object):
                     if t.draw(15) == 0:
                         dead_links.add((x, y, self.Links(l)))
         machine = par.Machine(W, H, collections.OrderedDict(
-            [(par.Cores, 18), (par.SDRAM, 100000), (par.SRAM, 1024)]),
+            [(par.Cores, [3, 5, 18][t.draw(3)]), (par.SDRAM, 100000),
+             (par.SRAM, 1024)]),
             {}, dead, dead_links)
         g = prgen.Graph()
         for _ in range(t.draw(8)):
@@ -196,8 +197,10 @@ class Caller(object):
                 constraints.append(cons.SameChipConstraint([a, b]))
         return machine, g, constraints
 
-    def placer(self, t):
+    def placer(self, t, forced=None):
         name = PLACERS[t.draw(len(PLACERS))]
+        if forced is not None:
+            name = forced
         kwargs = {}
         if name.startswith("sa"):
             fn = rig_module("rig.place_and_route.place.sa").place
@@ -253,9 +256,9 @@ class Caller(object):
         return res
 
     # -- the calls -----------------------------------------------------------
-    def call(self, kind, seed):
-        """Perform one call described by (kind, seed); -> (label, canonical
-        result)."""
+    def call(self, kind, seed, placer=None):
+        """Perform one call described by (kind, seed[, placer]); -> (label,
+        canonical result)."""
         t = Tape(seed=seed)
         par = self.par
         ner = rig_module("rig.place_and_route.route.ner")
@@ -263,7 +266,7 @@ class Caller(object):
         if kind in ("place", "allocate", "route", "tables", "minimise",
                     "wrapper"):
             machine, g, constraints = self.problem(t)
-            pname, pfn, pkw = self.placer(t)
+            pname, pfn, pkw = self.placer(t, placer)
             self.seed_globals(t)
             vr, nets = g.vertices_resources, g.nets
             if kind == "wrapper":
@@ -426,7 +429,7 @@ class Caller(object):
         return "controller", canon(out)
 
 
-def run_reference(kind, seed, hashseed_note=None):
+def run_reference(kind, seed, placer=None):
     """Run the probe first in a pristine fork; -> canonical result or
     ("died", ...)."""
     r, wfd = os.pipe()
@@ -437,7 +440,7 @@ def run_reference(kind, seed, hashseed_note=None):
             os.close(r)
             w = World(Tape(seed=1))
             try:
-                res = Caller(w).call(kind, seed)
+                res = Caller(w).call(kind, seed, placer)
             except Violation as v:
                 res = ("violation-in-reference", v.monitor, v.message)
             if w.violation is not None:
@@ -468,9 +471,10 @@ def run(world, tier, prop):
     n_hist = t.op_count(0, 12)
     probe_kind = KINDS[t.draw(len(KINDS))]
     probe_seed = t.subseed()
+    probe_placer = PLACERS[t.draw(len(PLACERS))]
     w.probe("probe_" + probe_kind)
     # the reference: the probe made first in a pristine process
-    ref = run_reference(probe_kind, probe_seed)
+    ref = run_reference(probe_kind, probe_seed, probe_placer)
     if isinstance(ref, tuple) and ref and ref[0] == "died":
         raise RuntimeError("reference process failed: %r" % (ref,))
     ref_violated = isinstance(ref, tuple) and ref and \
@@ -490,14 +494,20 @@ def run(world, tier, prop):
         t.next_segment()
         kind = KINDS[t.draw(len(KINDS))]
         seed = t.subseed()
-        label, res = caller.call(kind, seed)
+        placer = None
+        if t.draw(2):
+            # the same kind of call as the probe (other arguments): state kept
+            # by one function is most likely to show in that same function
+            kind, placer = probe_kind, probe_placer
+            w.probe("history_same_kind_as_probe")
+        label, res = caller.call(kind, seed, placer)
         w.trace.ev("call-%s-%s" % (label.split("[")[0],
                                    res[1][0] if isinstance(res, tuple) and
                                    len(res) > 1 and isinstance(res[1], tuple)
                                    else "x"))
         w.ops.append("history: %s(seed=%d) -> %s" % (label, seed, short(res)))
     t.begin_tail()
-    label, got = caller.call(probe_kind, probe_seed)
+    label, got = caller.call(probe_kind, probe_seed, probe_placer)
     w.trace.ev("probe-%s" % probe_kind)
     w.ops.append("probe: %s(seed=%d) -> %s" % (label, probe_seed, short(got)))
     w.probe("argument_snapshots", caller.snapshots)
